@@ -926,6 +926,34 @@ impl Cx {
                     ccalls.push(format!("ytext_insert_delta(len={})", delta.len()));
                     y::ytext_insert_delta(target, txn, delta.as_mut_ptr(), delta.len() as u32);
                 }
+                "amix" => {
+                    // ONE yarray_insert_range call mixing JSON-like cells and a nested shared-type cell
+                    if tkind != y::Y_ARRAY {
+                        return Err("not an array".into());
+                    }
+                    let (v1, t1) = self.val("");
+                    let (v2, t2) = self.val("");
+                    let (p, mut nd) = self.prelim("M");
+                    let (v3, t3) = self.val("");
+                    let items: Vec<y::YInput> = vec![ar.input(&v1), ar.input(&v2), ar.input(&p), ar.input(&v3)];
+                    ccalls.push(format!("yarray_insert_range({}, [json, json, prelim M, json])", i));
+                    y::yarray_insert_range(target, txn, i, items.as_ptr(), items.len() as u32);
+                    // the nested map is whichever element of the inserted range is a shared type
+                    let mut t = String::new();
+                    for j in 0..4 {
+                        ccalls.push(format!("yarray_get({})", i + j));
+                        if let Some((LV::Type(_, tt), _)) = take_out(y::yarray_get(target, txn, i + j)) {
+                            t = tt;
+                            break;
+                        }
+                    }
+                    nd[0]["tok"] = json!(t);
+                    new_cells.push(cell(&t1, 1, 1, "val", ""));
+                    new_cells.push(cell(&t2, 1, 1, "val", ""));
+                    new_cells.push(cell(&t, 1, 1, "type", &t));
+                    new_cells.push(cell(&t3, 1, 1, "val", ""));
+                    nested = nd;
+                }
                 "ains" | "apushb" | "apushf" | "arange" => {
                     if tkind != y::Y_ARRAY {
                         return Err("not an array".into());
